@@ -46,7 +46,7 @@ pub(crate) mod __verif_kani {
         }
     }
 
-    //@ kind=P props=C13 fn=decode_code_point,sequence_length : for every 4-byte window and every slice length 0..=4: decode is Some((cp,len)) iff a well-formed sequence (Table 3-7) of that length starts the slice, and cp re-encodes to those bytes
+    //@ kind=B props=C13 bound=every_4-byte_window,slice_lengths_0..=4 fn=decode_code_point,sequence_length : for every 4-byte window and every slice length 0..=4: decode is Some((cp,len)) iff a well-formed sequence (Table 3-7) of that length starts the slice, and cp re-encodes to those bytes
     #[kani::proof]
     pub fn c13_decode_window() {
         let w: [u8; 4] = kani::any();
@@ -128,7 +128,7 @@ pub(crate) mod __verif_kani {
         }
     }
 
-    //@ kind=P props=C13 fn=line_and_column : SWAR newline counter == naive count for every 19-byte buffer and every offset <= 19 (two full 8-byte words plus a 3-byte scalar tail)
+    //@ kind=B props=C13 bound=every_19-byte_buffer,every_offset fn=line_and_column : SWAR newline counter == naive count for every 19-byte buffer and every offset <= 19 (two full 8-byte words plus a 3-byte scalar tail)
     #[kani::proof]
     #[kani::unwind(22)]
     pub fn c13_line_and_column() {
